@@ -1,6 +1,8 @@
 (* Extraction of the generated model (Gen.v), the hand models and the executable spec to OCaml.
    ExtrOcamlBasic only; Z, positive, ascii, string stay the extracted inductives. *)
 From JV Require Import Sem Gen.
+From JV.Hand Require Import Iter Order Sys.
+From JV.Hand Require Import Names Text.
 Require Extraction.
 Require Import ExtrOcamlBasic.
 Extraction Language OCaml.
@@ -17,4 +19,9 @@ Extraction "jv.ml"
   Date_calendar Date_year Date_month Date_day Date_ordinal Date_day_ordinal Date_julian_day_number
   Date_later Date_earlier Date_and_later Date_and_earlier
   unix2jdn jdn2unix Weekday_for_jdn Weekday_number Weekday_number0 Weekday_name Weekday_short_name Weekday_pred Weekday_succ
-  Month_number Month_number0 Month_name Month_short_name Month_pred Month_succ MonthIter_new.
+  Month_number Month_number0 Month_name Month_short_name Month_pred Month_succ MonthIter_new
+  (* Hand/Iter.v *) days_run dates_run months_run later_take earlier_take and_later_take and_earlier_take later_next earlier_next and_later_next Z.to_nat
+  (* Hand/Order.v *) cal_cmp cal_eq cal_partial_cmp cal_hash date_cmp date_eq date_partial_cmp date_hash hstream_eqb
+  (* Hand/Sys.v *) system2jdn_model at_system_time_model sys_time_repr
+  (* Hand/Names.v *) codes month_display weekday_display month_from_str weekday_from_str month_try_from_ty weekday_try_from_ty ity_lo ity_hi
+  (* Hand/Text.v *) show_date show_date_alt parse_i32 parse_u32 parse_fields parse_date.
